@@ -232,22 +232,24 @@ def _run_instance(cfg, rec):
     classes = _Inst[:2]
 
     def fn(ctx):
-        # pre-state: for each format the class it resolves to (or none); for each (class, format) registered?
+        # pre-state: which (class, format) instances are registered; each format name resolves to nothing or to ANY registered
+        # instance (its own format: first registration; another format: a set_plugin pin) - all of these satisfy Inv
         regd = {(c, f): ctx.choose(2, f"reg_{c}_{f}") == 1 for c in range(2) for f in range(nf)}
+        pairs = [(c, f) for c in range(2) for f in range(nf)]
         short = {}
         for f in range(nf):
-            v = ctx.choose(3, f"short_{f}") - 1
-            if v >= 0 and not regd[(v, f)]:
+            v = ctx.choose(len(pairs) + 1, f"short_{f}") - 1
+            if v >= 0 and not regd[pairs[v]]:
                 raise core.InfeasiblePath()
-            short[f] = v
+            short[f] = pairs[v] if v >= 0 else None
         inst = {(c, f): classes[c](fmts[f]) for c in range(2) for f in range(nf)}
         registry = {}
         for (c, f), r in regd.items():
             if r:
                 registry[f"{full(classes[c])}_{fmts[f]}"] = inst[(c, f)]
         for f, v in short.items():
-            if v >= 0:
-                registry[fmts[f]] = inst[(v, f)]
+            if v is not None:
+                registry[fmts[f]] = inst[v]
         before = dict(registry)
         c, f = ctx.choose(2, "arg_c"), ctx.choose(nf, "arg_f")
         out = {"regd": regd, "short": short, "c": c, "f": f, "registry": registry, "before": before, "inst": inst}
@@ -279,12 +281,12 @@ def _run_instance(cfg, rec):
         items = []
         fullkey = f"{full(classes[c])}_{fmts[f]}"
         if op == "add":
-            first = short[f] < 0
-            conflict = (not first) and short[f] != c
+            first = short[f] is None
+            conflict = (not first) and short[f][0] != c
             ok = exc is None and fullkey in got and ident(got[fullkey]) == (classes[c], fmts[f])
             resolves = got.get(fmts[f])
-            want_cls = classes[c] if first else classes[short[f]]
-            ok = ok and resolves is not None and ident(resolves) == (want_cls, fmts[f])
+            want_ident = (classes[c], fmts[f]) if first else (classes[short[f][0]], fmts[short[f][1]])
+            ok = ok and resolves is not None and ident(resolves) == want_ident
             others = all(k in got and ident(got[k]) == ident(v) for k, v in out["before"].items() if k not in (fmts[f], fullkey))
             extra = set(got) - set(out["before"]) - {fullkey, fmts[f], full(classes[c])}
             items.append(("format name keeps resolving to the plugin first registered for it; the new plugin is reachable as <full name>_<format>; nothing else changes",
@@ -300,14 +302,14 @@ def _run_instance(cfg, rec):
                 items.append(("unknown full name -> ValueError, registry unchanged", z3.BoolVal(isinstance(exc, ValueError) and got == out["before"]),
                               "registry:instance-set:unknown"))
         else:
-            if short[f] >= 0:
-                items.append(("lookup by format returns the resolved plugin", z3.BoolVal(exc is None and ident(out["got"]) == (classes[short[f]], fmts[f])),
-                              "registry:instance-get"))
+            if short[f] is not None:
+                items.append(("lookup by format returns the resolved plugin",
+                              z3.BoolVal(exc is None and ident(out["got"]) == (classes[short[f][0]], fmts[short[f][1]])), "registry:instance-get"))
             else:
                 items.append(("unknown format -> ValueError with the given message", z3.BoolVal(isinstance(exc, ValueError) and str(exc) == "unknown format"),
                               "registry:instance-get:unknown"))
         rec.check_all(ctx, items, wit)
-        rec.sample({"op": op, "format": fmts[f], "class": classes[c].__name__, "pre_short": {fmts[k]: v for k, v in short.items()},
+        rec.sample({"op": op, "format": fmts[f], "class": classes[c].__name__, "pre_short": {fmts[k]: str(v) for k, v in short.items()},
                     "raised": type(exc).__name__ if exc else None})
     rec.validate("instance", {}, {"ok": True})
 
